@@ -1905,6 +1905,10 @@ ly_pattern_match(const struct ly_ctx *ctx, const char *pattern, const char *stri
     if (r && (r != LY_ENOT)) {
         ly_err_print(ctx, err);
         ly_err_free(err);
+        if (!pcode || !*pcode) {
+            /* compiled here */
+            pcre2_code_free(code);
+        }
         return r;
     }
 
